@@ -146,10 +146,15 @@ def check_lists(ck, cases):
 
 
 # ------------------------------------------------------------ warm-up, live vs reload
-def warmup_sessions(ck, n_scen):
+def warmup_sessions(ck, n_scen, forced=None):
+    """`forced`: scenarios (w, invocations, iterations, values, extra criteria) instead of random ones"""
     rng = ck.rng
     ops, scen = [], []
-    for i in range(n_scen):
+    for (w, n_inv, its, vals, extra) in (forced or []):
+        scen.append((w, n_inv, its, vals, extra))
+        ops.append({'op': 'c15.warmup', 'w': w or 0,
+                    'invs': [[{'it': k + 1, 'total': lib.frac(v)} for k, v in enumerate(inv)] for inv in vals]})
+    for i in range(0 if forced else n_scen):
         w = rng.choice([None, 0, 1, 2, 3, 5])
         n_inv = rng.randint(1, 4)
         its = rng.randint(1, 7) if rng.random() < 0.75 else rng.randint(18, 60)   # ... also long invocations
@@ -165,7 +170,7 @@ def warmup_sessions(ck, n_scen):
                     'invs': [[{'it': k + 1, 'total': lib.frac(v)} for k, v in enumerate(inv)] for inv in vals]})
     answers = ck.model(ops)
     for idx, ((w, n_inv, its, vals, extra), ans) in enumerate(zip(scen, answers)):
-        wd = os.path.join(ck.scratch, 'w%d' % idx)
+        wd = os.path.join(ck.scratch, '%s%d' % ('wf' if forced else 'w', idx))
         os.makedirs(wd)
         suite = {'gauge_adapter': 'RebenchLog', 'command': 'h %(benchmark)s', 'benchmarks': ['B']}
         if w is not None:
@@ -249,13 +254,130 @@ CORPUS = [
 ]
 
 
+GEN_STATS_MODULE = 'RB.Proofs.GenC15'
+GEN_WARMUP_MODULE = 'RB.Proofs.GenC15b'
+
+
+def gen_entry_status(ck, module):
+    """status of one translation tie of this property ('ok' if it is not listed or fine)"""
+    for e in getattr(ck, 'gen_entries', []) or []:
+        if e['module'] == module:
+            return e['status']
+    return 'ok'
+
+
+class _StubDP(object):
+    def __init__(self, k):
+        self.k = k
+
+    def get_total_value(self):
+        return float(self.k)
+
+    def get_total_unit(self):
+        return 'ms'
+
+
+def real_eval_output(n, w, profiling):
+    """the real Executor._eval_output on n data points: the (position, warm-up flag) of every
+    run_id.add_data_point call, in order; or 'raised ...'"""
+    from rebench.executor import Executor
+    calls = []
+
+    class RunIdStub(object):
+        warmup_iterations = w
+        completed_invocations = 0
+
+        def is_profiling(self):
+            return profiling
+
+        def add_data_point(self, dp, warmup):
+            calls.append((dp.k, bool(warmup)))
+
+        def indicate_successful_execution(self):
+            pass
+
+        def indicate_failed_execution(self):
+            calls.append('failed')
+
+        def report_run_failed(self, *a):
+            pass
+
+    class UIStub(object):
+        def __getattr__(self, _name):
+            return lambda *a, **kw: None
+
+    class AdapterStub(object):
+        def parse_data(self, _data, _run_id, _inv):
+            return [_StubDP(k) for k in range(n)]
+
+    class SelfStub(object):
+        ui = UIStub()
+    try:
+        Executor._eval_output(SelfStub(), 'out', RunIdStub(), AdapterStub(), 'cmd')
+    except Exception as e:  # noqa
+        return 'raised %s' % type(e).__name__
+    return calls
+
+
+def directed_search_warmup(ck):
+    """the translation tie of the warm-up / recording rule (RB.Proofs.GenC15b) is not available.
+    proof-broken: generated vs model on n in 0..30 x warmup in {None,0,1,2,5,25,40} x profiling; every
+    differing input goes to the real Executor._eval_output (each data point forwarded exactly once, in order,
+    the first min(w, n) flagged) and, for the reload rule, to real two-session runs.  untranslatable: the
+    whole grid goes to the real code."""
+    status = gen_entry_status(ck, GEN_WARMUP_MODULE)
+    if status == 'ok':
+        return False
+    grid = [(n, w, p) for n in range(0, 31) for w in (None, 0, 1, 2, 5, 25, 40) for p in (False, True)]
+    cands, reload_cands = grid, [(n, w) for (n, w, p) in grid if not p and w and n in (1, 3, 6, 30) and w <= 5]
+    if status.startswith('proof-broken'):
+        try:
+            answers = ck.model([{'op': 'c15.warmup_diff', 'n': n, 'w': w, 'profiling': p} for (n, w, p) in grid],
+                               driver='drivers/C15bgen.lean')
+            cands = [g for g, a in zip(grid, answers) if not a.get('gen_live_ok', True)]
+            reload_cands = sorted({(n, w) for (n, w, p), a in zip(grid, answers)
+                                   if not a.get('gen_reload_ok', True) and n >= 1})[:12]
+            ck.notes.append('directed search (warm-up): generated vs model differ on %d (live) / %d (reload) of %d '
+                            '(points, warmup, profiling) triples' % (len(cands), len(reload_cands), len(grid)))
+        except lib.InfraError as e:
+            ck.notes.append('directed search (warm-up): generated definitions do not run (%s); the whole grid goes '
+                            'to the real code' % str(e)[:200])
+    else:
+        ck.notes.append('directed search (warm-up): source not translatable; %d (points, warmup, profiling) triples '
+                        'go to the real Executor._eval_output, %d to real sessions' % (len(grid), len(reload_cands)))
+    ck.count('directed-search-candidates', len(cands) + len(reload_cands))
+    hits = 0
+    for (n, w, p) in cands:
+        ck.case(nontrivial_key=('directed-warmup', n, str(w), p))
+        got = real_eval_output(n, w, p)
+        k = 0 if (p or not w) else min(w, n)
+        want = [(i, i < k) for i in range(n)]
+        if got != want:
+            hits += 1
+            if hits <= 40:
+                clause = 'every_data_point_forwarded_once_in_order' if not isinstance(got, list) or \
+                    [x[0] for x in got if isinstance(x, tuple)] != list(range(n)) else 'warmup_flag_first_w_points'
+                ck.oracle_fail(clause, {'directed': 'warmup', 'points': n, 'warmup': w, 'profiling': p},
+                               {'reported': got if not isinstance(got, list) else got[:40], 'expected': want[:40]},
+                               {'kind': 'eval_output'})
+    if reload_cands:
+        forced = []
+        for (n, w) in reload_cands[:12]:
+            forced.append((w, 1, n, [[float(10 + 3 * i) for i in range(n)]], 0))
+        warmup_sessions(ck, 0, forced=forced)
+    return bool(cands or reload_cands)
+
+
 def directed_search(ck):
     """the translation tie is broken: look for an input on which the code as translated and the model
     differ (exhaustively over short lists from a small value set), then put exactly those inputs to the
     implementation and the oracle"""
     import itertools
     cands = []
-    if ck.gen_broken.startswith('proof-broken'):
+    status = gen_entry_status(ck, GEN_STATS_MODULE)
+    if status == 'ok':
+        return False
+    if status.startswith('proof-broken'):
         vals = [0.0, 1.0, 2.0, 3.0, 0.5, 1000000.0, 7.25]
         lists = [list(t) for n in range(1, 5) for t in itertools.product(vals, repeat=n)]
         try:
@@ -276,6 +398,7 @@ def run(ck):
     quick = ck.tier == 'quick'
     if ck.gen_broken:
         directed_search(ck)
+        directed_search_warmup(ck)
     ck.rule = ('sample lists (single, pairs, repeats, large offsets, magnitudes 1e-3..1e9, ints, long) fed in random '
                'batches to the real StatisticProperties and as exact rationals to RB.Stats; agreement within a '
                'worst-case rounding bound; non-trivial = list of length >= 2 (distinct by content) or a warm-up '
